@@ -1,0 +1,11 @@
+//go:build verif
+
+package analysis
+
+import "github.com/go-openapi/analysis/internal/verifhook"
+
+// VerifEvent is the event type reported by the verification hooks.
+type VerifEvent = verifhook.Event
+
+// VerifSetSink installs the function receiving verification hook events (nil removes it).
+func VerifSetSink(f func(VerifEvent)) { verifhook.SetSink(f) }
